@@ -772,6 +772,10 @@ def run(ctx, out, tier):
     shared.sh_err(ctx, out, bodies, floor=300)
     shared.sh_main(ctx, out)
     shared.sh_traverse(ctx, out)
+    # a diagnostic (and its severity) belongs to the block that produced it: no list kept across the async
+    # validators' block loop that is later paired with results by position
+    for _nm in ("check-lua", "check-ai"):
+        shared.sh_state(ctx, out, _nm)
     return meta()
 
 
